@@ -69,6 +69,35 @@ theorem mapM_lookup (rows : List Row) :
       · exact hr
       · exact hin r' h'
 
+theorem lookupRow_cases (rows : List Row) (g : String) :
+    (∃ r, lookupRow rows g = .ok r ∧ g ∈ rows.map (·.geo)) ∨
+    (lookupRow rows g = .error .keyError ∧ g ∉ rows.map (·.geo)) := by
+  unfold lookupRow
+  cases h : rows.find? (·.geo == g) with
+  | some r =>
+    refine Or.inl ⟨r, rfl, List.mem_map.2 ⟨r, List.mem_of_find?_eq_some h, ?_⟩⟩
+    simpa using List.find?_some h
+  | none =>
+    refine Or.inr ⟨rfl, fun hg => ?_⟩
+    obtain ⟨r, hf, _, _⟩ := find_geo rows g hg
+    rw [h] at hf; cases hf
+
+theorem mapM_lookup_err (rows : List Row) :
+    ∀ (gs : List String), (∃ g ∈ gs, g ∉ rows.map (·.geo)) →
+      gs.mapM (lookupRow rows) = .error .keyError
+  | [], h => by obtain ⟨g, hg, _⟩ := h; cases hg
+  | g :: gs, h => by
+    rw [List.mapM_cons]
+    rcases lookupRow_cases rows g with ⟨r, hr, hin⟩ | ⟨he, _⟩
+    · have : ∃ g' ∈ gs, g' ∉ rows.map (·.geo) := by
+        obtain ⟨g', hg', hn⟩ := h
+        rcases List.mem_cons.1 hg' with rfl | hg''
+        · exact absurd hin hn
+        · exact ⟨g', hg'', hn⟩
+      rw [hr, mapM_lookup_err rows gs this]
+      rfl
+    · rw [he]; rfl
+
 /-- the references handed out for the ordered subset `gs` -/
 def refs (indices : Bool) (gs : List String) : List Ref :=
   if indices then (List.range gs.length).map Ref.idx else gs.map Ref.id
@@ -102,6 +131,11 @@ theorem select_some_eq (rows : List Row) (gs : List String) (indices : Bool) :
     select rows (some gs) indices = (gs.mapM (lookupRow rows) >>= fun sel =>
       if indices then pure (((List.range sel.length).zip sel).map fun (i, r) => (Ref.idx i, r))
       else pure (sel.map fun r => (Ref.id r.geo, r))) := rfl
+
+theorem select_some_err (rows : List Row) (gs : List String) (indices : Bool)
+    (h : ∃ g ∈ gs, g ∉ rows.map (·.geo)) : select rows (some gs) indices = .error .keyError := by
+  rw [select_some_eq, mapM_lookup_err rows gs h]
+  rfl
 
 theorem select_some (rows : List Row) (gs : List String) (hsub : ∀ g ∈ gs, g ∈ rows.map (·.geo))
     (indices : Bool) :
